@@ -24,7 +24,10 @@ LEVEL_TEXT = ('static analysis: (D1) do_target interpreted on symbolic baits: wo
               'exact on literal tables, keeping the accessible regions of untargeted contigs whole (C06-D1b); (D4) a region is binned <=> span >='
               ' minimum, pieces chain from start to end (rule of C06-D5); (D5) drop_noncanonical_contigs keeps an accessible contig <=> it is '
               'targeted or canonically named (when some target is canonical), else <=> targeted or not longer-named than the longest targeted '
-              "one. Does not decide 'at most 1.5x the average size', coverage of every off-target stretch, or the chromosome-length heuristic.")
+              'one. (CLI) the `target / antitarget` command line(s), through a model of argparse built from the declarations in commands.py and '
+              'the real _cmd_ body interpreted with readers, library step and writers stubbed: annotation, --short-names, --split, average and '
+              "minimum sizes reach do_target / do_antitarget and the output is written under the given or the default name. Does not decide 'at "
+              "most 1.5x the average size', coverage of every off-target stretch, or the chromosome-length heuristic.")
 TECHNIQUE = "abstract interpretation with recorded method summaries (argument / order capture); column-write-set lint; small-scope exhaustive interpretation of shorten_labels; shared precondition and chaining rules"
 
 
@@ -206,6 +209,8 @@ def run(chk):
 _T = "cnvlib/target.py"
 _A = "cnvlib/antitarget.py"
 MUTANTS = [
+    dict(name="regress: antitarget default output from args.interval (pre-fix code)", file="cnvlib/commands.py", old='        base, ext = args.targets.rsplit(".", 1)', new='        base, ext = args.interval.rsplit(".", 1)'),
+    dict(name="cli: antitarget passes avg size as min size", file="cnvlib/commands.py", old="antitarget.do_antitarget(targets, access, args.avg_size, args.min_size)", new="antitarget.do_antitarget(targets, access, args.avg_size, args.avg_size)"),
     dict(name="regress: into_ranges returns its values on a fresh 0..n-1 index (pre-fix code)", edits=[("skgenome/intersect.py", "        return pd.Series([default] * len(dest), index=dest.index)", "        return pd.Series([default] * len(dest))"), ("skgenome/intersect.py", "    return pd.Series(result, index=dest.index)", "    return pd.Series(result)")]),
     dict(name="twin: empty baits dropped before the copy", expect="silent", file="cnvlib/target.py", old="    tgt_arr = bait_arr.copy()\n    # Drop zero-width regions\n    tgt_arr = tgt_arr[tgt_arr.start != tgt_arr.end]", new="    tgt_arr = bait_arr[bait_arr.start != bait_arr.end].copy()"),
     dict(name="target: copy dropped", file=_T, old="    tgt_arr = bait_arr.copy()\n    # Drop zero-width regions\n    tgt_arr = tgt_arr[tgt_arr.start != tgt_arr.end]", new="    tgt_arr = bait_arr\n    tgt_arr.data = tgt_arr.data[tgt_arr.start != tgt_arr.end]"),
